@@ -56,6 +56,7 @@ def build(al, case, route):
     raise ValueError(route)
 
 
+_INPUT_ROUTE = [0]
 ROUTES = ("list", "dict", "zexpr", "dendelay")
 MEMROUTES = ("list", "tuple", "gen", "callable", "longer")
 
@@ -86,8 +87,12 @@ def run_case(al, case, n, maxlen, maxmem, route, memroute, zero_num=0):
             kw["memory"] = lambda size: [LinForm.sym(maxlen + 1 + j) for j in range(1, size + 1)]
         elif memroute == "longer":
             kw["memory"] = items + [LinForm.sym(maxlen + 1 + maxmem)] * 2
+    # the input in one of its legal container forms (one-shot iterators included), cycled per call
+    _INPUT_ROUTE[0] += 1
+    r = _INPUT_ROUTE[0] % 5
+    sig = xs if r == 0 else iter(xs) if r == 1 else (x for x in xs) if r == 2 else al.Stream(xs) if r == 3 else tuple(xs)
     try:
-        res = f(xs, **kw)
+        res = f(sig, **kw)
         out = list(res)
         return ("none", out)
     except ValueError:
